@@ -510,6 +510,19 @@ def _install_typer():
 _install_typer()
 
 
+def _install_urllib():
+    import urllib.parse as up
+    for fn in (up.unquote, up.quote):
+        f = z3.Function(f"urllib_{fn.__name__}", z3.StringSort(), z3.StringSort())
+
+        def m(I, args, kwargs, f=f):
+            return SStr(f(I.to_str_term(args[0])))
+        model(fn, f"urllib.parse.{fn.__name__}: a deterministic function of the string (uninterpreted)")(m)
+
+
+_install_urllib()
+
+
 def _install_http():
     import http
     import io
